@@ -39,22 +39,40 @@ def from_abs(a):
     return (R.Sum if t == "sum" else R.Concat)(from_abs(a[1]), from_abs(a[2]))
 
 
+def spell(a):
+    """the tree with every multi-character symbol spelled out as a concatenation of one-character symbols"""
+    if a[0] == "sym":
+        name = ab.dec(a[1])
+        if len(name) <= 1:
+            return a
+        t = ["sym", ab.enc(name[0])]
+        for c in name[1:]:
+            t = ["cat", t, ["sym", ab.enc(c)]]
+        return t
+    return [a[0]] + [spell(x) if isinstance(x, list) else x for x in a[1:]]
+
+
 def events(r, n, src):
     from gambatools.regexp_algorithms import regexp_accepts_word, regexp_simplify
     A = ab.regexp(r)
     src = dict(src, re=A, n=n)
-    sigma = sorted({c for c in str(A) if False}) or None
-    syms = sorted(_syms(A)) or ["a"]
+    multi = any(len(s) > 1 for s in _syms(A))
+    syms = sorted({c for s in _syms(A) for c in s}) or ["a"]          # the characters words are made of
     if len(syms) == 1:
         syms = sorted(set(syms) | {"b" if syms[0] != "b" else "a"})
     n_eff = n if len(syms) <= 2 else min(n, 3)
     acc, exc = guarded(lambda: [w for w in U.words_upto(syms, n_eff) if regexp_accepts_word(r, w)], 30)
-    yield {"op": "re_accepts", "re": A, "n": n_eff, "sigma": [ab.enc(s) for s in syms],
-           "accepted": ab.words(acc or []), "exc": exc, "src": src}
+    ev = {"op": "re_accepts", "re": A, "n": n_eff, "sigma": [ab.enc(s) for s in syms],
+          "accepted": ab.words(acc or []), "exc": exc, "src": src}
+    if multi:
+        ev["sem"] = spell(A)
+    yield ev
     r2, exc = guarded(lambda: regexp_simplify(r))
     ev = {"op": "re_simplify", "re": A, "exc": exc, "src": src, "post": ab.regexp(r)}
     if exc == "none":
         ev["res"] = ab.regexp(r2)
+        if multi:
+            ev["sem"], ev["res_sem"] = spell(A), spell(ev["res"])
     yield ev
 
 
@@ -83,6 +101,10 @@ def drive(task):
         for i in range(task["count"]):
             ops = rng.choice([2, 3, 3, 4, 4, 5, 6, 7, 9])
             syms = rng.choice(["ab", "ab", "abc", "a", "01"])
+            if i % 5 == 4:
+                # symbols whose names have several characters (legal identifiers), over two characters
+                syms = rng.choice([["ab", "a", "b"], ["ab", "ba"], ["aa", "a", "b"], ["q1", "q", "1"], ["aba", "ab", "a"]])
+                ops = min(ops, 5)
             r = U.random_regexp(rng, ops, syms)
             yield from events(r, task["n"] if ops <= 6 else min(task["n"], 4), {"kind": "re"})
 
@@ -94,7 +116,8 @@ def redrive(src):
 MODELS = {"quick": [("Simplify", "Simplify_q.cfg", "all trees with <= 2 operators over {0,1,a,b}: every rewrite step")],
           "thorough": [("Simplify", "Simplify_t.cfg", "all trees with <= 3 operators over {0,1,a,b}")]}
 RULE = ("all regular expression trees with <= 2 operators (<= 3 in thorough) over leaves {0,1,a,b} + random trees with "
-        "2-9 operators over 1-3 symbols (incl. alphabets {0,1}); per tree the matcher's verdict on every word up to n "
+        "2-9 operators over 1-3 symbols (incl. alphabets {0,1}; every fifth with symbols whose names have 2-3 "
+        "characters, judged on character words); per tree the matcher's verdict on every word up to n "
         "and one simplification; non-trivial = tree contains a star or a constant; distinct = distinct tree")
 
 
@@ -105,7 +128,7 @@ def nontrivial(e):
 
 def check(tier, seed):
     return base.standard_check(PID, tier, seed, tasks(tier, seed), MODELS[tier], RULE, nontrivial,
-                               assumptions=["single-character symbols", "words up to length 4/5 for the matcher; "
+                               assumptions=["words up to length 4/5 for the matcher; "
                                             "simplification compared exactly (Glushkov automata)"])
 
 
